@@ -417,11 +417,11 @@ func (r v9raw) SkipScan(p Range, s Range, n int) {
 // Seek(k) lands on the first entry >= k, or on the last entry when there is none, and reports
 // eof iff the index is empty or that entry is outside the range.
 //
-//symgo:harness prop=C09 tier=quick shards=8 timeout=400 ttimeout=3000 bounds=btree_iterator|ixbuf_iterator;0..3_entries_(thorough_0..4);keys_1_symbolic_byte_(thorough_1|2)_in_an_assumed_ordering_chain;ixbuf_offsets_with_symbolic_flag_bits;range_unrestricted_or_symbolic_[org,end);3_steps_(thorough_4)_each_Next|Prev|Rewind+Next|Rewind+Prev|Seek(symbolic_key) outside=skip-scan_mode;modification_of_the_ixbuf_while_iterating_(covered_through_OverIter);trees_with_more_than_one_node
+//symgo:harness prop=C09 tier=quick shards=8 timeout=400 ttimeout=3000 bounds=btree_iterator|ixbuf_iterator;0..3_entries_(thorough_0..4);keys_1_symbolic_byte_(thorough_1|2)_in_an_assumed_ordering_chain;ixbuf_offsets_with_symbolic_flag_bits;range_unrestricted_or_symbolic_[org,end);2_steps_(thorough_3)_each_Next|Prev|Seek(symbolic_key),_optional_Rewind_before_step_2_(thorough:_before_any_later_step) outside=skip-scan_mode;modification_of_the_ixbuf_while_iterating_(covered_through_OverIter);trees_with_more_than_one_node
 func VerifC09LayerIter() {
-	maxn, steps, klen := 3, 3, 1
+	maxn, steps, klen := 3, 2, 1
 	if rt.Thorough() {
-		maxn, steps = 4, 4
+		maxn, steps = 4, 3
 		klen = 1 + rt.Pick("klen", 2)
 	}
 	n := rt.Pick("n", maxn+1)
@@ -457,7 +457,12 @@ func VerifC09LayerIter() {
 	}
 	rt.Reach("set-up")
 	for s := 0; s < steps; s++ {
-		switch rt.Pick(v9name("op", s), 5) {
+		// a Rewind may precede any step but the first (thorough) / only the second step (quick)
+		if s > 0 && (s == 1 || rt.Thorough()) && rt.Pick(v9name("rew", s), 2) == 1 {
+			it.Rewind()
+			c.rewound, c.eof = true, false
+		}
+		switch rt.Pick(v9name("op", s), 3) {
 		case 0:
 			it.Next(nil)
 			c.step("next", it, true)
@@ -465,16 +470,6 @@ func VerifC09LayerIter() {
 			it.Prev(nil)
 			c.step("prev", it, false)
 		case 2:
-			it.Rewind()
-			c.rewound, c.eof = true, false
-			it.Next(nil)
-			c.step("rewind-next", it, true)
-		case 3:
-			it.Rewind()
-			c.rewound, c.eof = true, false
-			it.Prev(nil)
-			c.step("rewind-prev", it, false)
-		case 4:
 			k := rt.Str(v9name("seek", s), klen)
 			raw.Seek(k)
 			c.seek(raw, k)
